@@ -91,14 +91,14 @@ DoJoin(m, c0) ==
     /\ tmr' = [s \in Servers |-> IF s = c0 THEN {m} ELSE {}]
     /\ fo' = NoFo /\ armed' = FALSE /\ good' = {} /\ UNCHANGED pend
     /\ gen' = [gen EXCEPT ![m] = @ + 1] /\ UNCHANGED <<pendx, xgen, taint, crashed>>
-    /\ obs' = [a |-> "Join", err |-> ""]
+    /\ obs' = [a |-> "Join", err |-> "", rc |-> coord', re |-> epoch']   \* what the client is told
   ELSE IF m \in members THEN Refuse("Join", "member")
   ELSE
     /\ members' = members \cup {m} /\ Bump(epoch, 1)
     /\ tmr' = [s \in Servers |-> IF s = coord THEN tmr[s] \cup {m} ELSE tmr[s]]
     /\ UNCHANGED <<exists, coord, fo, armed, good, pend>>
     /\ gen' = [gen EXCEPT ![m] = @ + 1] /\ UNCHANGED <<pendx, xgen, taint, crashed>>
-    /\ obs' = [a |-> "Join", err |-> ""]
+    /\ obs' = [a |-> "Join", err |-> "", rc |-> coord', re |-> epoch']   \* what the client is told
 
 \* the committed LEAVE_CONSUMER_GROUP operations of the members R (non-empty, subset of members)
 RemoveSet(R) ==
@@ -301,6 +301,7 @@ P_Heartbeat(s, m, e) ==
 
 P_Join(m) ==
   /\ exists'
+  /\ obs'.err = "" => (obs'.rc = coord' /\ obs'.re = epoch')    \* the client learns where and with which epoch to fetch
   /\ IF exists /\ m \in members THEN obs'.err # "" /\ NoChange
      ELSE obs'.err = "" =>
             /\ members' = members \cup {m}
